@@ -234,15 +234,29 @@ func init() {
 
 	// ------------------------------------------------------------------ C03
 	sizeModes := []proto.Mode{memoMode, {Size: 1}, {Size: 2}, {Size: 1<<15 + 1}}
+	// narrow instantiations: every offset and token index of the run fits the type (the
+	// reference completes fewer records than the type can count, end-of-input sentinel included)
+	c03Modes := func(pt *Point) []proto.Mode {
+		ms := append([]proto.Mode{}, sizeModes...)
+		fits := len(pt.Runes) + 2 + pt.Ref.Stats.Completed
+		if fits < 250 {
+			ms = append(ms, proto.Mode{U: "uint8"})
+		}
+		if fits < 60000 {
+			ms = append(ms, proto.Mode{U: "uint16"})
+		}
+		return ms
+	}
 	registerLab(&LabProp{
 		ID:         "C03",
+		AllU:       true,
 		Variants:   []lab.Variant{lab.V0},
 		NativeFuzz: 120,
 		FuzzOracle: "tokens",
 		Chunks:     func(c *drv.Ctx) int { return c.Pick(1, 8) },
 		Opts: func(c *drv.Ctx) lab.CollectOpts {
 			return lab.CollectOpts{N: c.Pick(100, 300), Profiles: []string{"backtracky", "plain", "backtracky", "deep", "liney"},
-				Inputs: c.Pick(24, 40), Hostile: true,
+				Inputs: c.Pick(24, 40), Hostile: true, Pumped: 3,
 				Score: scoreBy(func(r *refpeg.Result, in []rune) int {
 					return b2i(r.OK)*2 + b2i(r.OK && r.Stats.DiscardedTokens > 0)*2 + b2i(r.OK && r.Stats.DiscardedCaptures > 0)*2 + b2i(r.OK && r.Stats.MultiByteConsumed)
 				})}
@@ -252,7 +266,7 @@ func init() {
 			if !pt.Ref.OK {
 				return []proto.Mode{memoMode} // only as the rejected first call of a retry
 			}
-			return sizeModes
+			return c03Modes(pt)
 		},
 		Judge: func(c *drv.Ctx, pt *Point, l *lab.Lab) []Mismatch {
 			if !pt.Ref.OK {
@@ -260,13 +274,16 @@ func init() {
 			}
 			want := refpeg.Tokens(pt.Ref.Root)
 			var ms []Mismatch
-			for _, m := range sizeModes {
+			for _, m := range c03Modes(pt) {
 				o := obsOf(pt, "v0", m)
 				if o == nil || o.NilRule {
 					continue
 				}
 				c.Stats.Eval()
-				if m.Size == 0 && (pt.Ref.Stats.DiscardedTokens > 0 || pt.Ref.Stats.MultiByteConsumed) && c.Stats.Nontrivial(pt.key()) {
+				if m.U != "" {
+					c.Stats.Class("run_as_" + m.U)
+				}
+				if m.Size == 0 && m.U == "" && (pt.Ref.Stats.DiscardedTokens > 0 || pt.Ref.Stats.MultiByteConsumed) && c.Stats.Nontrivial(pt.key()) {
 					if pt.Ref.Stats.DiscardedTokens > 0 {
 						c.Stats.Class("nt_tokens_discarded_by_backtracking_or_lookahead")
 					}
@@ -413,6 +430,7 @@ func init() {
 					return 1 + b2i(d >= 3) + b2i(eq) + b2i(many) + b2i(empty)
 				})}
 		},
+		ReuseModes: []proto.Mode{printMode},
 		Modes: func(c *drv.Ctx, pt *Point, v lab.Variant) []proto.Mode {
 			if !pt.Ref.OK {
 				return nil
